@@ -219,7 +219,7 @@ def check_c19(tier: str) -> int:
             # ---- requests
             ac4 = r4.at.air_conditioners[0]
             ac5 = r5.at.air_conditioners[0]
-            calls = [(1, [p]) for p in range(3)] + [(2, [m, on]) for m in range(5) for on in (0, 1)] + [(3, [f]) for f in range(8)]
+            calls = [(1, [p]) for p in range(3)] + [(2, [m, on]) for m in range(5) for on in (0, 1, 2, 3)] + [(3, [f]) for f in range(8)]
             calls += [(4, [float(t)]) for t in rng.sample(range(5, 41), 8)]
             calls += [(6, [t, rng.randrange(24), rng.randrange(60)]) for t in (0, 1)] + [(7, [0]), (7, [1]), (5, [rng.randrange(2), rng.randrange(1440)])]
             jobs = [("ac", ac4, ac5, c, a) for c, a in calls]
